@@ -304,12 +304,14 @@ def evaluate(case):
     fps_before = twin_fps if twin_fps is not None else _schema_fps(objs, w)
     cfg_before = fp.config_state()
     fns = [objs.call(i) for i in range(n)]
-    r = sched.Sched(fns, schedule, probe=objs.probe).run()
+    r = sched.Sched(fns, schedule, probe=objs.probe, lines=bool(case.get("lines"))).run()
     cfg_after = fp.config_state()
     _reset_config()
     if r.status != "ok":
         ev.skipped = "inconclusive-watchdog"
         return ev
+    if case.get("lines"):
+        ev.labels.append("granularity=line")
 
     in_window = sorted({k for p in r.preemptions for k in p["windows"]})
     ev.nontrivial = bool(in_window)
@@ -428,6 +430,12 @@ def _call(s, form, cols, **kw):
     if "index" in kw:
         c["data"]["index"] = kw.pop("index")
     c.update(kw)
+    return c
+
+
+def _obj_call(s, cols, **kw):
+    c = _call(s, "pd", cols, **kw)
+    c["data"]["object_cols"] = sorted(cols)
     return c
 
 
@@ -575,6 +583,130 @@ def enum_double(tier):
                 for p in range(1 + seed % stride, steps[i], stride):
                     for q in qs:
                         yield {"workload": w, "schedule": [[i, p], [j, q], [i, INF]]}
+
+
+# ------------------------------------------------------------------ overlap: both threads inside the same function
+
+
+def _overlap_workloads():
+    gt0 = [["gt", 0]]
+    return [
+        # defaults filled into object / float data by two distinct schemas (whatever the filling touches process-wide)
+        _wl("pd-distinct/defaults", [
+            _schema("pd", [_col("a", "str", nullable=True, default="x"), _col("b", "float64", default=1.5, checks=[["gt", 0.0]])]),
+            _schema("pd", [_col("a", "str", nullable=True, default="y"), _col("b", "float64", default=2.5)]),
+        ], [
+            _call(0, "pd", {"a": ["p", None], "b": [0.5, None]}),
+            _call(1, "pd", {"a": [None, "q"], "b": [None, 2.0]}, lazy=True),
+        ]),
+        # object columns holding numbers: what a fill leaves behind depends on pandas' process-wide options
+        _wl("pd-distinct/defaults-object", [
+            _schema("pd", [_col("x", "object", nullable=True, default=0)]),
+            _schema("pd", [_col("x", "object", nullable=True, default=0)]),
+        ], [
+            _obj_call(0, {"x": [None, 1, 2]}),
+            _obj_call(1, {"x": [None, 3, 4]}),
+        ]),
+        _wl("pd-distinct/coerce+fail", [
+            _schema("pd", [_col("a", coerce=True, checks=gt0)]),
+            _schema("pd", [_col("a", coerce=True, checks=gt0)]),
+        ], [
+            _call(0, "pd", {"a": ["1", "2"]}),
+            _call(1, "pd", {"a": ["3", "-4"]}),
+        ]),
+        # polars frames with different columns validated by different schemas (nothing but the documented global
+        # config is shared: the outcome differences that config explains are attributed to the recorded finding)
+        _wl("pl-distinct/different-columns", [
+            _schema("pl", [_col("a", checks=gt0)]),
+            _schema("pl", [_col("b", "str")]),
+        ], [
+            _call(0, "pl_df", {"a": [1, 2]}),
+            _call(1, "pl_df", {"b": ["x", "y"]}),
+        ]),
+    ]
+
+
+def _function_points(w, lines=False):
+    """per thread: {function name: [yield-point counts at which the thread is inside that function (innermost pandera
+    frame)]} from a traced sequential execution"""
+    _reset_config()
+    objs = work.Objects(w)
+    n = len(w["calls"])
+    r = sched.Sched([objs.call(i) for i in range(n)], [[0, INF]], keep_trace=True, lines=lines).run()
+    _reset_config()
+    if r.status != "ok":
+        raise HarnessError(f"sequential traced execution of {w.get('name')} inconclusive: {r.why}")
+    per = [dict() for _ in range(n)]
+    inv = [dict() for _ in range(n)]  # function -> list of invocations, each the list of its points
+    stacks = [[] for _ in range(n)]   # entries: [name, points-of-this-invocation]
+    counts = [0] * n
+    for tid, what in r.trace:
+        counts[tid] += 1
+        popped = None
+        if what == "line":
+            pass
+        elif what.startswith("ret:"):
+            if stacks[tid]:
+                popped = stacks[tid].pop()
+        else:
+            rec = [what, []]
+            stacks[tid].append(rec)
+            inv[tid].setdefault(what, []).append(rec[1])
+        top = popped if popped is not None else (stacks[tid][-1] if stacks[tid] else None)
+        if top is not None:
+            top[1].append(counts[tid])
+            per[tid].setdefault(top[0], []).append(counts[tid])
+    return (per, inv) if lines else per
+
+
+def enum_overlap(tier):
+    """two-preemption schedules [[i,p],[j,q],[i,INF]] with thread i parked inside function F at p and thread j parked
+    inside the SAME function F at q: the interleavings in which a window opened by F on one thread is crossed by F on the
+    other (process-wide switches toggled around a library call, module-level memos, caches)"""
+    seed = int(os.environ.get("VERIF_SEED", "1") or 1)
+    cap = 3 if tier == "quick" else 8
+    for w in _overlap_workloads():
+        per = _function_points(w)
+        n = len(per)
+        for i in range(n):
+            for j in range(n):
+                if i == j:
+                    continue
+                for fn in sorted(set(per[i]) & set(per[j])):
+                    ps, qs = per[i][fn], per[j][fn]
+                    if len(ps) > cap:
+                        ps = ps[seed % 2::max(1, len(ps) // cap)][:cap]
+                    if len(qs) > cap:
+                        qs = qs[(seed // 2) % 2::max(1, len(qs) // cap)][:cap]
+                    for p_ in ps:
+                        for q_ in qs:
+                            yield {"workload": w, "schedule": [[i, p_], [j, q_], [i, INF]], "overlap_fn": fn}
+    # the same at source-line granularity for the short functions (a memo / switch that is written and read back within
+    # one function body has no call boundary inside its window)
+    small = 8 if tier == "quick" else 14
+
+    def pick(invocations):
+        # a function that is called many times: its first two and its last invocation
+        return invocations if len(invocations) <= 3 else invocations[:2] + invocations[-1:]
+
+    for w in _overlap_workloads():
+        if tier == "quick" and not w["name"].startswith("pl-distinct"):
+            continue  # (quick: the polars workload only; the pandas workloads at line granularity are thorough-tier)
+        _per, inv = _function_points(w, lines=True)
+        n = len(inv)
+        for i in range(n):
+            for j in range(n):
+                if i == j:
+                    continue
+                for fn in sorted(set(inv[i]) & set(inv[j])):
+                    for ps in pick(inv[i][fn]):
+                        for qs in pick(inv[j][fn]):
+                            if len(ps) > small or len(qs) > small:
+                                continue
+                            for p_ in ps:
+                                for q_ in qs:
+                                    yield {"workload": w, "schedule": [[i, p_], [j, q_], [i, INF]], "overlap_fn": fn,
+                                           "lines": True}
 
 
 # ------------------------------------------------------------------ cold process: first validations of a process
@@ -786,6 +918,7 @@ FAMILIES = [
                             "preempted-in-window=config-context"]),
     Family("double", evaluate, enumerate=enum_double, shards_quick=2, shards_thorough=12,
            required_labels=["preempted-in-window=config-context"]),
+    Family("overlap", evaluate, enumerate=enum_overlap, shards_quick=14, shards_thorough=16),
     Family("cold", eval_cold, enumerate=enum_cold, shards_quick=16, shards_thorough=16),
     Family("multi", evaluate, strategy=strat_multi, n_quick=220, n_thorough=1000, shards_quick=4, shards_thorough=16,
            required_labels=["expect=independent", "class=pd-shared-noop", "class=pd-distinct"]),
